@@ -253,6 +253,9 @@ pub fn run(rep: &mut Report) {
 		if case.feats.logical > 0 {
 			cover.count("asts_with_logical_types", 1);
 		}
+		if case.family.starts_with("decimal-bounds") {
+			cover.count("asts_decimal_scale_equals_precision", 1);
+		}
 		if case.family.starts_with("enum0") {
 			cover.count("asts_with_empty_enum", 1);
 		}
@@ -322,6 +325,18 @@ pub fn run(rep: &mut Report) {
 		"valid_forward_docs",
 		"asts_two_pending_forward_references",
 		"valid_docs_with_escaped_type_strings",
+		"escaped_spellings:All",
+		"escaped_spellings:Name",
+		"escaped_spellings:Namespace",
+		"escaped_spellings:FieldName",
+		"escaped_spellings:Symbol",
+		"escaped_spellings:TypeAttr",
+		"escaped_spellings:LogicalType",
+		"escaped_spellings:Doc",
+		"escaped_spellings:Alias",
+		"escaped_spellings:UnknownKey",
+		"escaped_spellings:AttrKey",
+		"asts_decimal_scale_equals_precision",
 		"asts_with_empty_enum",
 		"refs_resolved",
 		"asts_shadowing",
